@@ -5,12 +5,6 @@ sys.path.insert(0, '/verif')
 import props
 
 NA = {
- "C18": "iso_camt053::import is serde-derived XML types + regex field matchers + iterator chains: outside Verus' reach, and the planned Kani harness (XML decoder stubbed by a harness-built document) is not tractable here: the much smaller Txn::to_double_entry harness already needs tens of minutes of CBMC time; not attempted within the time budget (DESIGN.md 10.3)",
- "C05": "parser acceptance and parse∘format laws live in ~2000 lines of winnow combinator closures over a GAT decoration; no contract within reach of Verus (cannot ingest) or Kani (>=20 input bytes for one transaction) can express or decide them; the literal sub-grammar is decided under C07",
- "C09": "price selection is a label-correcting search over BinaryHeap + nested HashMap entry API + partition_point closures; no vstd spec, Kani cannot run HashMap/Decimal arithmetic, and the proof is a protocol-level inductive invariant; only the division-by-zero obligation of insert_price is kept (C06/C01)",
- "C10": "convert_amount / Ledger::balance are folds over impl-Iterator wrappers and adapter chains with an or_insert_with(closure) cache; no contract within reach expresses 'every entry converted exactly once'",
- "C11": "load_impl recurses through a FileSystem trait, glob, PathBuf and an FnMut callback; the real file system has no specification and the fake one is a HashMap<PathBuf,_> Kani cannot execute",
- "C15": "read-back of importer output is parse∘display = id (same obstacle as C05); its numeric clause is decided under C07",
 }
 
 def main():
